@@ -207,7 +207,10 @@ def gen_result(rng, kind=None, shape=None, plot_safe=False):
         dmd = {}
         for i in range(nsamp):
             dmd[f's{i}'] = {key: (f'v_{key}' if key not in bad or i == 0
-                                  else f'w_{key}_{i}') for key in keys}
+                                  else rng.choice([f'w_{key}_{i}',
+                                                   f'v_{key} ',
+                                                   f' v_{key}']))
+                            for key in keys}
         if rng.random() < 0.2:          # a key missing in one sample
             del dmd[f's{nsamp - 1}'][keys[0]]
             bad.add(keys[0])
